@@ -12,6 +12,7 @@ ENGINES = [
     {'name': 'E4 reference interpreter', 'path': 'vf/model.py', 'kind_free_text': 'executable list-level model of the node catalogue used as oracle over recorded histories'},
     {'name': 'E5b async runner', 'path': 'vf/asyncrun.py', 'kind_free_text': 'async case runner (producers, consumers, bounded settle) and local/edge oracles'},
     {'name': 'E7 in-memory Kafka', 'path': 'vf/kafka_fake.py', 'kind_free_text': 'stand-in for the confluent_kafka client API with a broker journal surviving restarts'},
+    {'name': 'E6 dataframe differential engine', 'path': 'vf/dfengine.py', 'kind_free_text': 'table/split generators, real streaming-dataframe pipeline builder, pandas oracles'},
     {'name': 'E5 program generator', 'path': 'vf/progs.py', 'kind_free_text': 'seeded generator of pipeline programs and input interleavings'},
 ]
 
@@ -137,6 +138,32 @@ add('C20', 'exploration', 'runtime monitoring: differential twin execution (loca
     'with the same counts and completion signals.',
     'Real scheduler and real time: interleavings are whatever the perturbation produces; watchdog => inconclusive.',
     'DESIGN.md#C20')
+
+add('C06', 'exploration', 'runtime monitoring: differential execution of the real streaming dataframe pipelines against pandas on every prefix',
+    'Generated tables (dyadic floats, small ints, few repeating / vanishing / re-entering keys, RangeIndex or DatetimeIndex) '
+    'are split into batch sequences incl. empty batches first / in the middle / last and batches emptied by a filter, with '
+    'and without NaNs; every value emitted by sum/count/size/mean/var/std/value_counts and the six groupby aggregations '
+    '(column, column-list and streaming-series groupers; Series and DataFrame) is compared with pandas on the concatenated '
+    'prefix; expression trees are compared per batch and mismatches attributed to the smallest failing sub-expression.',
+    'pandas is the oracle (rtol=atol=1e-9, NaN==NaN, index labels sorted, dtype and names ignored); empty prefixes are not compared.',
+    'DESIGN.md#C06')
+add('C07', 'exploration', 'runtime monitoring: differential execution of windowed aggregations against pandas on the window slice of every prefix',
+    'window(n=N) and window(value=T) aggregations and windowed groupbys, N in {1,2,3,5,8}, T in {1,2,5 s}, batches smaller / '
+    'equal / larger than the window, empty batches inside a run, keys leaving and re-entering; oracle = pandas on the last N '
+    'rows resp. the rows within T of the newest index; stale or missing group keys are violations.',
+    'As C06; value_counts compared after dropping zero counts.', 'DESIGN.md#C07')
+add('C11', 'exploration', 'runtime monitoring: concatenated streaming results vs one-pass pandas over several splits of each table',
+    'rolling (row-count and time windows x 9 aggregations), cumsum/cumprod/cummin/cummax, expanding aggregations and '
+    'ewm().mean(): every table is run unsplit and under several splits (empty batches, batches shorter than the window, NaN at '
+    'batch ends) and the concatenation of what is emitted is compared with pandas in one pass.',
+    'As C06; expanding().sum() over a prefix without valid observation is compared with pandas min_periods=0.', 'DESIGN.md#C11')
+add('C12', 'fault_enumeration', 'runtime monitoring with enumerated cut points: resume a fresh pipeline from the deep-copied state after every batch',
+    'For every generated batch sequence the uninterrupted run exposes its state (with_state / result-is-state / '
+    'Stream.accumulate(..., with_state=True)); at EVERY cut the state is deep-copied, a fresh pipeline is started from '
+    'start=state and fed the remaining batches; its results must equal the suffix of the uninterrupted run. Covers '
+    'reductions, groupby, rolling, window(n), window(value), windowed groupby, expanding, ewm.',
+    'std of window/expanding/windowed groupby cannot expose state (raises TypeError with with_state=True): counted, resumed via the twin var() pipeline.',
+    'DESIGN.md#C12')
 
 
 def main():
